@@ -258,7 +258,7 @@ Print Assumptions C08_exec_total.
    (C08_refines_tilde_partial), r (C08_refines_replace_partial), p P of one-line character-wise text and of
    line-wise text (C08_refines_put_chars_partial, C08_refines_put_lines_partial), i a with plain typed text
    (C08_refines_insert_plain_partial), Y (C08_refines_Y_partial), s C with plain typed text
-   (C08_refines_s_C_plain_partial), S (C08_refines_S_plain_partial), o O (C08_refines_open_plain_partial), A (C08_refines_A_plain_partial), J of two lines (C08_refines_J_partial), >> << (C08_refines_shift_partial).  The references are the small functions ref_span, ref_line_delete,
+   (C08_refines_s_C_plain_partial), S (C08_refines_S_plain_partial), o O (C08_refines_open_plain_partial), A (C08_refines_A_plain_partial), J of two lines (C08_refines_J_partial), g~~ guu gUU (C08_refines_case_lines_partial), >> << (C08_refines_shift_partial).  The references are the small functions ref_span, ref_line_delete,
    ref_tilde, ref_replace, ref_put_off, ref_put_row, ref_ins_off of ViDefs.v on the BODY of the cursor line.
    MISSING: J with a count above 2 and d c y g~ gu gU with arbitrary motions (< > with a motion other than the doubled key), I, inserts containing editing keys, newlines or only
    blanks (autoindent), puts of character-wise text containing a newline, and the composition over whole
@@ -431,6 +431,19 @@ Theorem C08_refines_J_partial : forall rows e cnt e1 body1 body2,
   v_row (s_vs e1) = v_row s /\ v_off (s_vs e1) = ren_noeol (Some (nb ++ [nlc])) (slen body1).
 Proof. exact refines_J. Qed.
 Print Assumptions C08_refines_J_partial.
+(* g~~ / guu / gUU with a count: every character of the n lines from the cursor row (clamped) is mapped by case_chr (ASCII
+   letters only; multi-byte characters untouched); registers untouched; the cursor goes to the first non-blank of the LAST
+   line of the range *)
+Theorem C08_refines_case_lines_partial : forall rows e (op : okey) cnt e1 l0, (op = Otilde \/ op = Ogu \/ op = OgU) ->
+  let b := s_buf e in let s := s_vs e in
+  buf_wf b -> cursor_ok b (v_row s) (v_off s) -> getl b (v_row s) = Some l0 -> 0 <= cnt ->
+  exec1 rows (COp 0%N cnt op 0 TDbl []) e = Some e1 ->
+  let r2 := Z.min (v_row s + Z.max 1 cnt - 1) (blen b - 1) in
+  let b' := firstn (Z.to_nat (v_row s)) b ++ map (map (case_chr op)) (rows_between b (v_row s) (r2 + 1)) ++ skipn (Z.to_nat (r2 + 1)) b in
+  s_buf e1 = b' /\ s_regs e1 = s_regs e /\ v_row (s_vs e1) = r2 /\
+  v_off (s_vs e1) = ren_noeol (getl b' r2) (lbuf_indents b' r2).
+Proof. exact refines_case_lines. Qed.
+Print Assumptions C08_refines_case_lines_partial.
 Local Open Scope N_scope.
 
 Example C08_nonvacuous :
